@@ -5,10 +5,10 @@ From UV Require Import Model.Map Proofs.MapBase Proofs.MapProbe Proofs.Map Proof
 Import ListNotations.
 
 (** Refinement of the CURRENT code ([fixed = true]), for EVERY hash function, every key
-    equivalence the hash respects (C15: NaN, -0 and byte/float keys included) and every history of insert / remove / get / has / length from the empty map - with the
+    equivalence the hash respects (C15: NaN, -0 and byte/float keys included) and every history of insert / remove / get / has / length / un-map from the empty map - with the
     table growing as the code grows it: the outputs are those of the association list, the
-    key bound to row i is the key of the i-th entry and row i its value ([abs] = [lift], which
-    is what un-map returns up to its sort), and len = number of rows = number of entries.
+    key bound to row i is the key of the i-th entry and row i its value ([abs] = [lift]); un-map's
+    output is the one of [normalized()] with its sort by row index, and len = number of rows = number of entries.
     Every prefix of a history is a history, so this holds after every step.
     [nanlike] is arbitrary: the current code never compares a key with a placeholder cell.
     Outside the statement (by the shape of the model: a stored key is a [Key] cell): keys one
@@ -41,6 +41,25 @@ Theorem C16_map_inv_run :
       R key val keq hash (fst (run key val keq nanlike true hash he ht (empty_map key val) ops))
         (fst (srun key val keq [] ops)).
 Proof. exact map_inv_run. Qed.
+
+(** present_indices (map.rs l.726-733: the first step of MapKeys::reverse / rotate / take / drop,
+    with its sort by row index) after every such history: it lists the table positions of the
+    present keys in row order - its i-th entry is the cell holding the key of the i-th entry of
+    the association list, and that cell's index is i *)
+Theorem C16_present_indices_spec :
+  forall (key val : Type) (keq : key -> key -> bool) (nanlike : key -> bool) (hash : key -> N) (he ht : N),
+    (forall k, keq k k = true) ->
+    (forall a b, keq a b = keq b a) ->
+    (forall a b c, keq a b = true -> keq b c = true -> keq a c = true) ->
+    (forall a b, keq a b = true -> hash a = hash b) ->
+    forall ops : list (op key val), forallb (proved_op key val) ops = true ->
+      let v := fst (run key val keq nanlike true hash he ht (empty_map key val) ops) in
+      let a := fst (srun key val keq [] ops) in
+      length (present_indices key (fst v)) = length a /\
+      forall i k x, nth_error a i = Some (k, x) ->
+        exists p, nth_error (present_indices key (fst v)) i = Some p /\
+          cellat key (fst v) p = Key k /\ nth p (idx (fst v)) 0 = i.
+Proof. exact present_indices_run. Qed.
 
 (** grow_impl (which re-inserts placeholder cells too): growing a well-formed table to any larger
     capacity keeps exactly the bindings and makes every key reachable again *)
@@ -93,6 +112,7 @@ Proof. exact agrees_example. Qed.
 
 Print Assumptions C16_map_refines_alist.
 Print Assumptions C16_map_inv_run.
+Print Assumptions C16_present_indices_spec.
 Print Assumptions C16_grow_keeps_bindings.
 Print Assumptions C16_insert_impl_spec.
 Print Assumptions C16_nan_key_refuted_pre.
